@@ -69,6 +69,7 @@ PROPERTIES = {
         "rules": [
             (A.A1_inputs_not_mutated, "C04.1 inputs unmodified", {"only": ["replace_pattern_in_structure", "find_pattern_in_structure", "find_unchanged_atom_pairs", "Atoms.copy"]}),
             (A.A2_copy_is_deep, "C04.1 copies are deep"),
+            (A.A1w_who_may_mutate, "C04.1 no helper reached from the replacement mutates a caller-owned object (package-wide effect summaries)"),
             (A.A5_overlap_guard, "C04.2 deletion set = matched minus retained"),
             (A.A3_fragment_typestate, "C04.2 single bulk delete after all insertions"),
             (A2.A14_randomness_sites, "C04.3 round(f*M) matches sampled"),
@@ -102,6 +103,7 @@ PROPERTIES = {
             (B.B4_offsets_tuple, "C06.1 offsets tuple order = subscript per kind"),
             (A.A3_fragment_typestate, "C06.1 extend_types once before the loop, offsets passed to every extend"),
             (A2.A12_extend_bookkeeping, "C06.2 re-targeting of term atom indices"),
+            (C.C_idx_extend, "C06.2 index spaces in extend"),
             (E.E_override_both_directions, "C06.3 override in both directions"),
             (B.B1_kind_blocks, "C06.3 per-kind blocks agree", {"funcs": ["Atoms.extend", "Atoms.extend_types", "Atoms.__delitem__"]}),
             (A2.A9_companion_index_lists, "C06.3-4 deletion of overridden/touched rows uses the index list of the same kind"),
@@ -151,6 +153,7 @@ PROPERTIES = {
             (A2.A10_descending_contract, "C09.1 index re-mapping on delete: descending-order contract, drop iff any atom deleted"),
             (A.A2_copy_is_deep, "C09.4 copy is deep"),
             (A.A1_inputs_not_mutated, "C09.4 replicate / subset work on copies", {"only": ["Atoms.replicate", "Atoms.__getitem__", "Atoms.copy"]}),
+            (A.A1w_who_may_mutate, "C09 only the documented operations modify an Atoms object in place (package-wide effect summaries)"),
             (E.E1_lmpdat_writer_reader, "C09.5 writer counts come from arrays of their own kind"),
         ],
         "decided": "every size-changing operation updates every per-atom array and every per-term companion array with the index list of its own kind and ends in the consistency "
@@ -175,6 +178,7 @@ PROPERTIES = {
     "C11": {
         "rules": [
             (A2.A12_extend_bookkeeping, "C11 offset before append, one selector, index map, identity adoption"),
+            (C.C_idx_extend, "C11 index spaces in extend: other-indices select the other's rows, self-indices the receiver's rows"),
             (B.B1_kind_blocks, "C11 per-kind blocks agree", {"funcs": ["Atoms.extend", "Atoms.extend_types", "Atoms._extend_extra_fields", "Atoms.__init__"]}),
             (B.B4_offsets_tuple, "C11 offset slot per kind"),
             (E.E_override_both_directions, "C11 forward and reverse override"),
